@@ -250,7 +250,7 @@ func (c *Checker) batch(obs []Oblig) {
 			break
 		}
 	}
-	if len(live) > 1 && !quant {
+	if len(live) > 1 && !quant && os.Getenv("SNESVC_NOBATCH") == "" {
 		var ds []*Term
 		for _, o := range live {
 			ds = append(ds, And(o.PC, Not(o.Cond)))
